@@ -19,13 +19,22 @@ def registration_writer(run):
     for f in run.repo.module("utype.utils.base").functions.values():
         if f.cls is not C and not (f.qualname.startswith("TypeRegistry.")):
             continue
+        if f.name in ("__init__", "__new__"):
+            continue
         for c in walk_shallow(f.node):
-            if isinstance(c, ast.Call) and isinstance(c.func, ast.Attribute) and c.func.attr in ("insert", "append") \
-                    and unparse(c.func.value).endswith("._registry"):
+            writes = isinstance(c, ast.Call) and isinstance(c.func, ast.Attribute) and c.func.attr in (
+                "insert", "append", "extend") and unparse(c.func.value).endswith("._registry")
+            if isinstance(c, (ast.Assign, ast.AugAssign)):
+                tgts = c.targets if isinstance(c, ast.Assign) else [c.target]
+                for t in tgts:
+                    base = t.value if isinstance(t, ast.Subscript) else t
+                    if isinstance(base, ast.Attribute) and base.attr == "_registry":
+                        writes = True
+            if writes:
                 cands.append(f)
                 break
     if not cands:
-        raise AnalysisError("anchor: no function of TypeRegistry inserts into the registration list")
+        raise AnalysisError("anchor: no function of TypeRegistry writes the registration list")
     # prefer the innermost (a closure of register) when several qualify
     cands.sort(key=lambda f: -f.qualname.count("."))
     return cands[0]
